@@ -43,6 +43,16 @@ def transcendental(hy, n):
         r = z3.Real(f"rem!{hy.aux}")
         hy.side.append(z3.And(r >= -z3.RealVal(str(cv)) / 2, r <= z3.RealVal(str(cv)) / 2))
         return ("Z", r)
+    if op == "FMOD":
+        # C fmod(x, c), c > 0 constant: |r| < c and r has the sign of x (or is zero)
+        c = hy.val(args[1])
+        assert c[0] == "F" and c[1].is_const() and c[1].const_value() > 0
+        cv = z3.RealVal(str(c[1].const_value()))
+        xz = hy.z(hy.val(args[0]))
+        hy.aux += 1
+        r = z3.Real(f"fmod!{hy.aux}")
+        hy.side.append(z3.And(r > -cv, r < cv, z3.Implies(xz >= 0, r >= 0), z3.Implies(xz <= 0, r <= 0), z3.Implies(z3.And(xz > -cv, xz < cv), r == xz)))
+        return ("Z", r)
     if op in ("SIN", "COS"):
         cache = hy.__dict__.setdefault("_trig", {})
         if args[0] not in cache:
